@@ -22,7 +22,8 @@ GRAMMARS = [
     # descriptions
     'cmd a "first" | b "second";', 'cmd (a "x" | b "y")... c;', 'cmd --help "show help" | --version "show version" | -v;',
     'cmd a "same" | b "same" | c;', 'cmd x "d1" y | z x "d2";', 'cmd a "quo\\"te $HOME `id` back\\\\slash" | b "it\'s";',
-    'cmd "lit$x" | "li`t" | "l\\"q" | sq\'x;',
+    'cmd lit$x | li`t | l\\"q | sq\'x;', 'cmd b\\\\s | g*l?b | t~x | am&p!x | h#h;', 'cmd --o=(a$b|c\\"d|e`f "de$sc`r\\"i\\\\p") | --p=(\\(x\\)|\\[y\\]|\\<z\\>|\\{w\\}|\\|\\;|\\.);',
+    'cmd a\\\\ b;',
     # fallbacks at top level
     'cmd a || b;', 'cmd (a | b) || c;', 'cmd (a "da" || b "db") c;', 'cmd a (b || c || d) e;', 'cmd (a || b)... c;',
     'cmd (a b || c d);', 'cmd [a || b] c;',
@@ -45,21 +46,35 @@ GRAMMARS = [
     # undefined nonterminals (any word)
     'cmd <U>;', 'cmd a <U> b;', 'cmd <U>... x;', 'cmd --opt=<U>;', 'cmd --opt=<U> | --x=(a|b);', 'cmd (a | <U>) c;', 'cmd <_> a;',
     'cmd --a=<U> --b=<V> | --c=(x|y);',
+    # several commands offered in one state; multi-line command and description; known real discrepancies
+    'cmd ({{{ echo a }}} | {{{ echo b }}}) x | y {{{ echo c }}};', 'cmd --o=({{{ echo a }}} | {{{ echo b }}}) x;',
+    'cmd {{{ if true; then\n  echo a\n}\nfi }}} a "two\nlines" | --o=(x "sub\ndescr"|{{{ echo 1\n}\necho 2 }}});', 'cmd (a b || a c);',
+    'cmd a "" | b;', 'cmd {{{ }}} x;', 'cmd --o={{{ }}};',
 ]
+for _f in ("hello", "mygit", "mygrep"):  # the examples shipped with complgen, if present
+    try:
+        GRAMMARS.append(open("/repo/examples/%s.usage" % _f).read())
+    except OSError:
+        pass
 
 
-def label_key(l, shell, submap):
+EMPTY_CMD = {"bash": ":", "pwsh": "# empty command"}  # what these emitters print for an empty {{{ }}}
+
+
+def label_key(l, shell, submap, recorded):
     d, hd = ("", False) if shell == "bash" else (l["d"], bool(l["hd"]) and l["d"] != "")
     t = l["t"].strip() if l["k"] in ("cmd", "compadd") else l["t"]
+    if recorded and l["k"] in ("cmd", "compadd") and t == "":
+        t = EMPTY_CMD.get(shell, "")
     return (l["k"], t, d, hd, l["lv"], submap(l["sub"]) if l["k"] == "sub" else 0)
 
 
-def compare(a, b, shell, smap_a=lambda x: x, smap_b=lambda x: x):
+def compare(a, b, shell, smap_a=lambda x: x, smap_b=lambda x: x, a_recorded=False):
     """a: automaton read from the script, b: recorded automaton -> list of disagreements ([] = same)"""
     out = {}
     for side, aut, sm in (("s", a, smap_a), ("r", b, smap_b)):
         for t in aut["tr"]:
-            out.setdefault((side, t["f"]), {}).setdefault(label_key(t["l"], shell, sm), set()).add(t["t"])
+            out.setdefault((side, t["f"]), {}).setdefault(label_key(t["l"], shell, sm, side == "r" or a_recorded), set()).add(t["t"])
     pair, inv, todo, bad = {a["start"]: b["start"]}, {b["start"]: a["start"]}, [(a["start"], b["start"])], []
     while todo and len(bad) < 5:
         x, y = todo.pop()
@@ -97,7 +112,7 @@ def check(r, obs, shell):
             bad.append("subword %s matches no recorded within-word automaton; e.g. %s" % (r["sub_ids"][i], why[:2]))
     rcanon = {}
     for j, m in enumerate(msubs):  # recorded ones that are equivalent among themselves collapse too
-        eq = [k for k in range(j + 1) if not compare(msubs[k], m, shell)]
+        eq = [k for k in range(j + 1) if not compare(msubs[k], m, shell, a_recorded=True)]
         rcanon[j + 1] = ("r", eq[0] + 1)
     bad += compare(r["main"], obs["min"], shell, lambda x: canon.get(x, ("s", x)), lambda x: rcanon.get(x, ("r", x)))
     if len(subs) != len(msubs):
@@ -137,7 +152,7 @@ def main():
             bad.append("string_constants: %d literal constants, %d literals" % (len([c for c in consts if c["role"] == "literal"]), want))
         json.dumps(r)  # must be serialisable
         stats[sh][1 if bad else 0] += 1
-        if bad and shown < 12:
+        if bad and (shown < 12 or verbose):
             shown += 1
             print("DIFF %-4s %s" % (sh, g))
             for b in bad[:4]:
